@@ -1,277 +1,40 @@
 #!/usr/bin/env python3
-"""(Re)generates /verif/spec/traces/<PROP>.json from the current tree for the function lists below.
-Run by hand only, after which every changed row must be reviewed (git diff) before committing: the tables are the oracle."""
+"""(Re)generates /verif/spec/traces/<PROP>.json from the current tree: one table per unit (gdverif/units.py says which
+functions are units of which property). Run by hand only; every changed row must then be reviewed (git diff) before
+committing: the tables are the oracle."""
 import json, os, sys
 sys.path.insert(0, os.path.dirname(os.path.dirname(os.path.abspath(__file__))))
-from gdverif import facts, tracespec as TS, sites as S
+from gdverif import facts, tracespec as TS, sites as S, units as U, sym as SY
 
-P = "gamedig::protocols::"
-G = "gamedig::games::"
-W = {"writer": True}
-CL = {"calls": True}
-# (module, fn name, self-type substring or None, options, table description)
-TABLES = {
- "C02": {"provenance": "Valve Developer Wiki 'Server queries' (A2S_INFO / A2S_PLAYER / A2S_RULES, multi-packet response format), transcribed from memory and cross-read with node-gamedig valve.js; rows reviewed one by one",
-  "fns": [
-   ("protocols::valve::protocol", "new", "SplitPacket", {}, "split packet header (Source / GoldSrc)"),
-   ("protocols::valve::protocol", "get_payload", "SplitPacket", W, "bzip2 + crc32 of compressed split payloads"),
-   ("protocols::valve::protocol", "receive", "ValveProtocol", {}, "single vs split packet, reassembly"),
-   ("protocols::valve::types", "new_from_bufferer", "Packet", {}, "packet header"),
-   ("protocols::valve::protocol", "get_server_info", None, {}, "A2S_INFO (Source)"),
-   ("protocols::valve::protocol", "get_goldsrc_server_info", None, {}, "A2S_INFO (obsolete GoldSrc)"),
-   ("protocols::valve::protocol", "get_server_players", None, {}, "A2S_PLAYER"),
-   ("protocols::valve::protocol", "get_server_rules", None, {}, "A2S_RULES"),
-   ("protocols::valve::types", "from_gldsrc", "Server", W, "server type byte"),
-   ("protocols::valve::types", "from_gldsrc", "Environment", W, "environment byte"),
-   ("protocols::valve::types::game", "new_from_valve_response", None, {}, "per-game response projection"),
-   ("protocols::valve::types::game", "from_valve_response", None, {}, "per-game player projection"),
-   ("protocols::valve::types", "get_optional_extracted_data", None, W, "extra data projection"),
-   ("protocols::valve::protocol", "new", "ValveProtocol", {}, "client construction (socket, retry count)"),
-   ("protocols::valve::protocol", "get_request_data", None, {}, "request with retries"),
-   ("protocols::valve::protocol", "get_response", None, {}, "info / players / rules sequencing, app-id check"),
-   ("protocols::valve::protocol", "query", None, {}, "public entry"),
-  ]},
- "C03": {"provenance": "wiki.vg 'Server List Ping' (Java JSON status, legacy 1.6 / 1.4 / beta 1.8 kick packets) and node-gamedig minecraftbedrock.js; pinned tree reviewed",
-  "fns": [
-   ("games::minecraft::protocol::java", "receive", None, {}, "java packet framing"),
-   ("games::minecraft::protocol::java", "get_info_impl", None, CL, "java status JSON pointers"),
-   ("games::minecraft::protocol::bedrock", "get_info_impl", None, CL, "bedrock unconnected pong"),
-   ("games::minecraft::protocol::legacy_v1_6", "is_protocol", None, {}, "1.6 marker"),
-   ("games::minecraft::protocol::legacy_v1_6", "get_response", None, {}, "1.6 fields"),
-   ("games::minecraft::protocol::legacy_v1_6", "get_info_impl", None, CL, "1.6 kick packet"),
-   ("games::minecraft::protocol::legacy_v1_4", "get_info_impl", None, CL, "1.4 kick packet"),
-   ("games::minecraft::protocol::legacy_vb1_8", "get_info_impl", None, CL, "beta 1.8 kick packet"),
-   ("games::minecraft::types", "from_bedrock_response", None, {}, "bedrock -> java projection"),
-   ("games::minecraft::types", "from_bedrock", "GameMode", W, "bedrock game mode"),
-   ("games::minecraft::protocol", "query", None, CL, "auto-detect order"),
-   ("games::minecraft::protocol", "query_legacy", None, CL, "legacy order"),
-   ("games::minecraft::protocol", "query_legacy_specific", None, CL, "legacy dispatch"),
-   ("games::minecraft", "query", None, CL, "game-level auto-detect"),
-   ("games::minecraft", "query_legacy", None, CL, "game-level legacy"),
-   ("games::minecraft::protocol::java", "query", "Java", {}, "java entry"),
-   ("games::minecraft::protocol::bedrock", "query", "Bedrock", {}, "bedrock entry"),
-   ("games::minecraft::protocol::legacy_v1_6", "query", "LegacyV1_6", {}, "legacy 1.6 entry"),
-   ("games::minecraft::protocol::legacy_v1_4", "query", "LegacyV1_4", {}, "legacy 1.4 entry"),
-   ("games::minecraft::protocol::legacy_vb1_8", "query", "LegacyVB1_8", {}, "legacy b1.8 entry"),
-   ("games::minecraft::protocol", "query_java", None, {}, "protocol-level java"),
-   ("games::minecraft::protocol", "query_bedrock", None, {}, "protocol-level bedrock"),
-   ("games::minecraft", "query_java", None, {}, "game-level java"),
-   ("games::minecraft", "query_bedrock", None, {}, "game-level bedrock"),
-   ("games::minecraft", "query_legacy_specific", None, {}, "game-level legacy dispatch"),
-  ]},
- "C04": {"provenance": "node-gamedig gamespy1.js / gamespy2.js / gamespy3.js as cited by PROTOCOLS.md; pinned tree reviewed",
-  "fns": [
-   ("protocols::gamespy::common", "has_password", None, W, "password flag"),
-   ("protocols::gamespy::protocols::one::protocol", "get_server_values_impl", None, {}, "GS1 key/value parts"),
-   ("protocols::gamespy::protocols::one::protocol", "extract_players", None, {}, "GS1 per-player keys"),
-   ("protocols::gamespy::protocols::one::protocol", "query", None, CL, "GS1 response mapping"),
-   ("protocols::gamespy::protocols::one::protocol", "query_vars", None, CL, "GS1 raw variables"),
-   ("protocols::gamespy::protocols::two::protocol", "data_as_table", None, {}, "GS2 table"),
-   ("protocols::gamespy::protocols::two::protocol", "get_server_vars", None, {}, "GS2 key/value block"),
-   ("protocols::gamespy::protocols::two::protocol", "get_teams", None, {}, "GS2 teams"),
-   ("protocols::gamespy::protocols::two::protocol", "get_players", None, {}, "GS2 players"),
-   ("protocols::gamespy::protocols::two::protocol", "query", None, CL, "GS2 response mapping"),
-   ("protocols::gamespy::protocols::three::protocol", "receive", "GameSpy3", {}, "GS3 packet header"),
-   ("protocols::gamespy::protocols::three::protocol", "get_server_packets_impl", None, {}, "GS3 splitnum packets"),
-   ("protocols::gamespy::protocols::three::protocol", "data_to_map", None, {}, "GS3 key/value"),
-   ("protocols::gamespy::protocols::three::protocol", "parse_players_and_teams", None, {}, "GS3 player/team sections"),
-   ("protocols::gamespy::protocols::three::protocol", "query", None, CL, "GS3 response mapping"),
-   ("protocols::gamespy::protocols::three::protocol", "query_vars", None, CL, "GS3 raw variables"),
-   ("protocols::gamespy::protocols::three::protocol", "new_custom", "GameSpy3", {}, "GS3 client construction"),
-   ("protocols::gamespy::protocols::three::protocol", "get_server_packets", "GameSpy3", {}, "GS3 packets with retries"),
-  ]},
- "C05": {"provenance": "node-gamedig quake1.js/quake2.js/quake3.js; pinned tree reviewed",
-  "fns": [
-   ("protocols::quake::client", "get_data_impl", None, CL, "status request / response prefix"),
-   ("protocols::quake::client", "get_server_values", None, {}, "backslash variables"),
-   ("protocols::quake::client", "get_players", None, CL, "player lines"),
-   ("protocols::quake::client", "client_query", None, CL, "response mapping"),
-   ("protocols::quake::client", "remove_wrapping_quotes", None, W, "quote stripping"),
-   ("protocols::quake::one", "parse_player_string", None, W, "Q1 player line"),
-   ("protocols::quake::two", "parse_player_string", None, W, "Q2 player line"),
-   ("protocols::quake::three", "parse_player_string", None, W, "Q3 player line"),
-   ("protocols::quake::one", "get_response_header", None, W, "Q1 response prefix"),
-   ("protocols::quake::two", "get_response_header", None, W, "Q2 response prefix"),
-   ("protocols::quake::three", "get_response_header", None, W, "Q3 response prefix"),
-   ("protocols::quake::one", "query", None, {}, "Q1 entry"),
-   ("protocols::quake::two", "query", None, {}, "Q2 entry"),
-   ("protocols::quake::three", "query", None, {}, "Q3 entry"),
-  ]},
- "C06": {"provenance": "node-gamedig unreal2.js; pinned tree reviewed",
-  "fns": [
-   ("protocols::unreal2::protocol", "consume_response_headers", None, {}, "response header"),
-   ("protocols::unreal2::protocol", "query_server_info", None, CL, "server info exchange"),
-   ("protocols::unreal2::protocol", "query_mutators_and_rules", None, CL, "rules exchange"),
-   ("protocols::unreal2::protocol", "query_players", None, CL, "players exchange"),
-   ("protocols::unreal2::protocol", "query", "Unreal2Protocol", CL, "section sequencing"),
-   ("protocols::unreal2::types", "parse", "ServerInfo", {}, "server info fields"),
-   ("protocols::unreal2::types", "parse", "MutatorsAndRules", {}, "mutators and rules"),
-   ("protocols::unreal2::types", "parse", "Players", {}, "players / bots"),
-   ("protocols::unreal2::protocol", "decode_string", None, W, "length-prefixed Latin-1 / UCS-2 strings with colour stripping"),
-   ("protocols::unreal2::protocol", "new", "Unreal2Protocol", {}, "client construction"),
-   ("protocols::unreal2::protocol", "query", "", {}, "public entry"),
-  ]},
- "C07": {"provenance": "node-gamedig ffow.js / savage2.js / jc2mp.js, Mindustry NetworkIO.java, pinned tree reviewed",
-  "fns": [
-   ("games::ffow::protocol", "query_with_timeout", None, CL, "FFOW"),
-   ("games::savage2::protocol", "query_with_timeout", None, CL, "Savage 2"),
-   ("games::jc2m::protocol", "parse_players_and_teams", None, {}, "JC2M player list"),
-   ("games::jc2m::protocol", "query_with_timeout", None, CL, "JC2M mapping"),
-   ("games::mindustry::protocol", "parse_server_data", None, {}, "Mindustry server data"),
-   ("games::mindustry::protocol", "query", None, CL, "Mindustry exchange"),
-   ("games::mindustry::types", "try_from", "GameMode", W, "Mindustry game mode"),
-   ("games::theship::types", "new_from_valve_player", None, {}, "The Ship player"),
-   ("games::theship::types", "new_from_valve_response", None, {}, "The Ship response"),
-   ("games::battalion1944", "query", None, CL, "Battalion 1944 overrides"),
-   ("games::eco::types", "from", "Response as From", {}, "Eco Root -> Response"),
-   ("games::eco::protocol", "query_with_timeout_and_extra_settings", None, CL, "Eco exchange"),
-   ("games::eco::protocol", "query", None, {}, "Eco entry"),
-   ("games::eco::protocol", "query_with_timeout", None, {}, "Eco entry with timeout"),
-   ("games::ffow::protocol", "query", None, {}, "FFOW entry"),
-   ("games::jc2m::protocol", "query", None, {}, "JC2M entry"),
-   ("games::savage2::protocol", "query", None, {}, "Savage 2 entry"),
-   ("games::theship::protocol", "query", None, {}, "The Ship entry"),
-   ("games::theship::protocol", "query_with_timeout", None, {}, "The Ship entry with timeout"),
-   ("games::mindustry", "query", None, {}, "Mindustry game entry"),
-   ("games::mindustry::protocol", "query_with_retries", None, {}, "Mindustry retries"),
-  ]},
- "C09": {"provenance": "request layouts of each protocol (Valve wiki, wiki.vg, node-gamedig); pinned tree reviewed after the big-endian port fix",
-  "fns": [
-   ("protocols::valve::types", "to_bytes", "Packet", W, "A2S request framing"),
-   ("protocols::valve::types", "get_default_payload", None, W, "A2S default payloads"),
-   ("protocols::valve::protocol", "get_request_data_impl", None, {"calls": True, "writer": True}, "A2S request + challenge echo"),
-   ("protocols::valve::protocol", "get_kind_request_data", None, CL, "A2S kind request"),
-   ("protocols::gamespy::protocols::one::protocol", "get_server_values_impl", None, {}, "GS1 request"),
-   ("protocols::gamespy::protocols::two::protocol", "request_data_impl", None, {}, "GS2 request"),
-   ("protocols::gamespy::protocols::three::protocol", "to_bytes", "RequestPacket", W, "GS3 request packet"),
-   ("protocols::gamespy::protocols::three::protocol", "make_initial_handshake", None, {"calls": True, "writer": True}, "GS3 handshake + challenge"),
-   ("protocols::gamespy::protocols::three::protocol", "send_data_request", None, CL, "GS3 data request"),
-   ("protocols::quake::client", "get_data_impl", None, CL, "Quake request"),
-   ("protocols::quake::one", "get_send_header", None, W, "Q1 request"),
-   ("protocols::quake::two", "get_send_header", None, W, "Q2 request"),
-   ("protocols::quake::three", "get_send_header", None, W, "Q3 request"),
-   ("protocols::unreal2::protocol", "get_request_data_impl", None, {}, "Unreal 2 request"),
-   ("games::minecraft::protocol::java", "send", None, W, "Java framing"),
-   ("games::minecraft::protocol::java", "send_handshake", None, W, "Java handshake"),
-   ("games::minecraft::protocol::java", "send_status_request", None, W, "Java status request"),
-   ("games::minecraft::protocol::java", "send_ping_request", None, W, "Java ping request"),
-   ("games::minecraft::protocol::bedrock", "send_status_request", None, W, "Bedrock ping"),
-   ("games::minecraft::protocol::legacy_v1_6", "send_initial_request", None, W, "legacy 1.6 ping"),
-   ("games::minecraft::protocol::legacy_v1_4", "send_initial_request", None, W, "legacy 1.4 ping"),
-   ("games::minecraft::protocol::legacy_vb1_8", "send_initial_request", None, W, "legacy b1.8 ping"),
-   ("games::minecraft::types", "as_varint", None, W, "VarInt encoder"),
-   ("games::minecraft::types", "as_string", None, W, "string encoder"),
-   ("games::mindustry::protocol", "send_ping", None, W, "Mindustry ping"),
-   ("games::savage2::protocol", "query_with_timeout", None, CL, "Savage 2 request"),
-   ("games::ffow::protocol", "query_with_timeout", None, CL, "FFOW request"),
-   ("services::valve_master_server::service", "construct_payload", None, W, "master server request"),
-   ("services::valve_master_server::service", "query_specific", None, CL, "master server exchange"),
-  ]},
- "C12": {"provenance": "timeout settings plumbing: constructor, getters and defaults must hand each duration to its own role; pinned tree reviewed",
-  "fns": [
-   ("protocols::types", "new", "TimeoutSettings", {}, "constructor field wiring"),
-   ("protocols::types", "get_read", None, W, "read getter"),
-   ("protocols::types", "get_write", None, W, "write getter"),
-   ("protocols::types", "get_connect", None, W, "connect getter"),
-   ("protocols::types", "get_retries", None, W, "retries getter"),
-   ("protocols::types", "get_retries_or_default", None, W, "retries or default"),
-   ("protocols::types", "get_read_and_write_or_defaults", None, W, "read/write or defaults"),
-   ("protocols::types", "get_connect_or_default", None, W, "connect or default"),
-   ("protocols::types", "const_default", None, {}, "defaults"),
-  ]},
- "C19": {"crate": "gamedig_cli-bin", "provenance": "CLI control flow: which writer each (mode, format) pair reaches with which view of the response, and how main chains lookup, resolution, query and output; pinned tree reviewed",
-  "fns": [
-   ("", "output_result", None, {"calls": True, "writer": True}, "mode x format dispatch"),
-   ("", "main", None, CL, "query pipeline"),
-   ("", "find_game", None, W, "game lookup"),
-   ("", "resolve_ip_or_domain", None, {"calls": True, "writer": True}, "address resolution"),
-   ("", "resolve_domain", None, W, "DNS lookup"),
-   ("", "set_hostname_if_missing", None, W, "hostname propagation"),
-   ("", "output_result_json", None, W, "json writer"),
-   ("", "output_result_json_pretty", None, W, "pretty json writer"),
-   ("", "output_result_bson_hex", None, W, "bson hex writer"),
-   ("", "output_result_bson_base64", None, W, "bson base64 writer"),
-   ("", "output_result_debug", None, W, "debug writer"),
-   ("", "output_result_xml", None, W, "xml writer"),
-   ("output_result_xml", "json_to_xml", None, W, "json -> xml conversion (element per key, text per scalar)"),
-  ]},
- "C17": {"provenance": "the packet reader and codecs are the reference point of every parser; their bodies are pinned after the INV-CURSOR / decoder-contract proofs (C17 D1-D5) and review against the VarInt definition of wiki.vg",
-  "fns": [
-   ("buffer", "move_cursor", None, W, "cursor move with range check"),
-   ("buffer", "read", "Buffer<B>>", W, "fixed-width read"),
-   ("buffer", "read_string", None, W, "string read"),
-   ("buffer", "switch_endian_chunk", None, W, "endian switch"),
-   ("buffer", "remaining_length", None, W, "remaining length"),
-   ("buffer", "remaining_bytes", None, W, "remaining bytes"),
-   ("buffer", "decode_string", "Utf8Decoder as", W, "UTF-8 delimiter-terminated"),
-   ("buffer", "decode_string", "Utf8LengthPrefixedDecoder", W, "UTF-8 length-prefixed"),
-   ("buffer", "decode_string", "Utf16Decoder", W, "UTF-16"),
-   ("games::minecraft::types", "get_varint", None, W, "VarInt decoder"),
-   ("games::minecraft::types", "as_varint", None, W, "VarInt encoder"),
-   ("games::minecraft::types", "get_string", None, W, "string decoder"),
-   ("games::minecraft::types", "as_string", None, W, "string encoder"),
-   ("utils", "u8_lower_upper", None, W, "nibble split"),
-   ("utils", "error_by_expected_size", None, W, "declared-length check"),
-  ]},
- "C14": {"provenance": "generic dispatcher: per protocol arm the callee and exactly which of (socket_addr built from the definition's default port | raw address, port | definition request settings | caller extra settings | defaults) it passes; pinned tree reviewed against the per-game wrappers",
-  "fns": [
-   ("games::query", "query", None, CL, "generic entry"),
-   ("games::query", "query_with_timeout", None, CL, "generic entry with timeout"),
-   ("games::query", "query_with_timeout_and_extra_settings", None, CL, "dispatcher arms"),
-  ]},
- "C16": {"provenance": "Valve Developer Wiki 'Master Server Query Protocol' (request layout, filter keys, \\nor\\ / \\nand\\ groups, reply format); rows reviewed",
-  "fns": [
-   ("services::valve_master_server::types", "to_bytes", "types::Filter>", W, "filter key table"),
-   ("services::valve_master_server::types", "bool_as_char_u8", None, W, "bool encoding"),
-   ("services::valve_master_server::types", "insert", None, {}, "plain group"),
-   ("services::valve_master_server::types", "insert_nand", None, {}, "nand group"),
-   ("services::valve_master_server::types", "insert_nor", None, {}, "nor group"),
-   ("services::valve_master_server::types", "special_filter_to_bytes", None, W, "group prefix"),
-   ("services::valve_master_server::types", "to_bytes", "SearchFilters", W, "filter string"),
-   ("services::valve_master_server::service", "construct_payload", None, W, "request layout"),
-   ("services::valve_master_server::service", "query_specific", None, CL, "reply page"),
-   ("services::valve_master_server::service", "query", "ValveMasterServer", CL, "paging loop"),
-   ("services::valve_master_server::service", "query_singular", None, CL, "single page"),
-   ("services::valve_master_server::service", "new", "ValveMasterServer", {}, "client construction"),
-   ("services::valve_master_server::service", "query", "", {}, "public entry"),
-   ("services::valve_master_server::service", "default_master_address", None, {}, "default master address"),
-  ]},
-}
-
-
-def resolve(idx, mod, name, ty, crate_prefix="gamedig"):
-    pre = crate_prefix + "::" + (mod + "::" if mod else "")
-    c = [k for k in idx if k.startswith(pre) and k.endswith("::" + name) and (not ty or ty in k)
-         and ("::" not in k[len(pre):-len(name) - 2].replace("::<", "<").split("<")[0] if k[len(pre):-len(name) - 2] and not k[len(pre):].startswith("<") else True)]
-    c = [k for k in c if (k[len(pre):] == name) or k[len(pre):].startswith("<")]
-    if ty == "":
-        c = [k for k in c if k[len(pre):] == name]
-    return c
+IO_PROPS = ["C02", "C03", "C04", "C05", "C06", "C07", "C16"]
 
 
 def main(which):
-    for prop, tab in TABLES.items():
+    lib = facts.load(name="gamedig-lib")
+    for prop, r in U.RULES.items():
         if which and prop not in which:
             continue
-        cname = tab.get("crate", "gamedig-lib")
+        cname = r.get("crate", "gamedig-lib")
         c = facts.load(name=cname)
-        idx = TS.fn_index(c)
-        cpre = c.name
-        out = {"provenance": tab["provenance"], "crate": cname, "functions": {}}
-        for mod, fname, ty, opts, table in tab["fns"]:
-            cands = resolve(idx, mod, fname, ty, cpre)
-            if len(cands) != 1:
-                print("!! %s::%s (%s): %d candidates %s" % (mod, fname, ty, len(cands), cands[:5]))
-                continue
-            name = cands[0]
-            f = idx[name]
-            ent = dict(opts)
-            ent["table"] = table
-            ent["rows"] = TS.rows_of(c, f, opts)
-            out["functions"][name] = ent
+        out = {"provenance": r["provenance"], "crate": cname, "functions": {}}
+        for p in U.select(c, prop):
+            f = c.fn(p)
+            out["functions"][S.fn_display(f)] = {"rows": TS.rows_of(c, f, {})}
         with open(TS.spec_path(prop), "w") as fh:
             json.dump(out, fh, indent=1)
         print(prop, len(out["functions"]), "functions", sum(len(e["rows"]) for e in out["functions"].values()), "rows")
+    if not which or "C09" in which:
+        units, g = TS.all_units(lib)
+        out = {"provenance": "request layouts of each protocol (Valve wiki, wiki.vg, node-gamedig); pinned tree reviewed after the big-endian port fix. "
+                             "Projection of every I/O unit's term onto socket construction, sends and unit calls", "crate": "gamedig-lib", "functions": {}}
+        for prop in IO_PROPS:
+            for p in U.select(lib, prop):
+                if g.reaches(p, SY.IO_PRED):
+                    f = lib.fn(p)
+                    out["functions"][S.fn_display(f)] = {"project": "requests", "rows": TS.rows_of(lib, f, {"project": "requests"})}
+        with open(TS.spec_path("C09"), "w") as fh:
+            json.dump(out, fh, indent=1)
+        print("C09", len(out["functions"]), "functions", sum(len(e["rows"]) for e in out["functions"].values()), "rows")
 
 
 if __name__ == "__main__":
